@@ -186,15 +186,73 @@ def e2e_mps(D=200, dt=10):
     return check_protocol("emu-mps", tt, req, log, counter["steps"], res.get_result_times(obs))
 
 
+def e2e_default_times(backend="sv", D=1000, dt=10):
+    """An observable with its own evaluation times must not be recorded at a *default* evaluation
+    time (requested by another observable) that merely lies near one of its own times."""
+    from native_util import make_sequence_data, patch_pulser_observable
+    patch_pulser_observable()
+    from emu_base.pulser_adapter import _get_target_times
+    from pulser.backend import Energy, Occupation
+    if backend != "sv":
+        D = 100             # (fewer steps; pulser's own tolerance is 0.5 / D)
+    own, default = [0.5], [0.5 + 0.4 / D, 1.0]
+    obs1, obs2 = Occupation(evaluation_times=own), Energy()
+    if backend == "sv":
+        from emu_sv import SVConfig
+        from emu_sv.sv_backend_impl import SVBackendImpl
+        cfg = SVConfig(dt=dt, observables=[obs1, obs2], gpu=False, default_evaluation_times=default, log_level=1000)
+        tt = _get_target_times(Seq(D), cfg, dt)
+        data = dataclasses.replace(make_sequence_data(n=2, steps=len(tt) - 1), target_times=tt)
+        res = SVBackendImpl(cfg, data)._run()
+    else:
+        from emu_mps import MPSConfig
+        from emu_mps.mps_backend_impl import MPSBackendImpl
+        cfg = MPSConfig(dt=dt, observables=[obs1, obs2], num_gpus_to_use=0, default_evaluation_times=default,
+                        log_level=1000, optimize_qubit_ordering=False)
+        tt = _get_target_times(Seq(D), cfg, dt)
+        data = dataclasses.replace(make_sequence_data(n=3, steps=len(tt) - 1), target_times=tt)
+        impl = MPSBackendImpl(cfg, data)
+        try:
+            impl.init()
+            while not impl.is_finished():
+                impl.progress()
+        finally:
+            try:
+                os.remove(impl.autosave_file)
+            except Exception:
+                pass
+        res = impl.results
+    stored = [float(t) for t in res.get_result_times(obs1)]
+    if stored != own:
+        print(f"REPRODUCED: emu-{backend}: Occupation requested at {own} only (another observable uses the default "
+              f"times {default}) is stored at {stored}: a time it did not request")
+        return 1
+    print(f"NOT-REPRODUCED (emu-{backend}, default times): Occupation requested at {own} stored at {stored}")
+    return 0
+
+
 def main():
     rec = None
     if len(sys.argv) > 1 and os.path.exists(sys.argv[1]):
         with open(sys.argv[1]) as f:
             rec = json.load(f)
-    rc = unit(rec)
-    rc2 = e2e_sv()
-    rc3 = e2e_mps()
-    return 1 if (rc or rc2 or rc3) else 0
+    name = (rec or {}).get("obligation", "")
+    # the part of the replay that concerns the failed obligation (all parts without a record)
+    if "_is_evaluation_time" in name:
+        parts = [lambda: e2e_default_times("mps" if "MPSBackendImpl" in name else "sv")]
+    elif "_get_target_times" in name:
+        parts = [lambda: unit(rec), e2e_sv]
+    elif "MPSBackendImpl" in name:
+        parts = [e2e_mps, lambda: e2e_default_times("mps")]
+    elif "SVBackendImpl" in name:
+        parts = [e2e_sv, lambda: e2e_default_times("sv")]
+    else:
+        parts = [lambda: unit(rec), e2e_sv, e2e_mps, lambda: e2e_default_times("sv"),
+                 lambda: e2e_default_times("mps")]
+    rc = 0
+    for p in parts:
+        rc |= p()
+    return 1 if rc else 0
 
 
 if __name__ == "__main__":
